@@ -214,3 +214,57 @@ func VerifConn(dm *Daemon, addr string) VerifConnInfo {
 
 // VerifDisconnectReason returns the (unexported, not transmitted) reason a DisconnectMessage was created with.
 func VerifDisconnectReason(m *DisconnectMessage) gnet.DisconnectReason { return m.reason }
+
+// ---- C23: replies built by the request HANDLERS (not only by the constructors) -------------------------------
+
+// VerifReplier is a daemoner with configurable data sources that records what the handlers send.
+type VerifReplier struct {
+	VerifRecorder
+	Known   coin.Transactions  // answer of getKnownUnconfirmed
+	Unknown []cipher.SHA256    // answer of filterKnownUnconfirmed
+	Blocks  []coin.SignedBlock // answer of getSignedBlocksSince
+	Sent    []gnet.Message
+}
+
+func (r *VerifReplier) DaemonConfig() DaemonConfig { return r.Cfg }
+func (r *VerifReplier) sendMessage(addr string, msg gnet.Message) error {
+	r.Sent = append(r.Sent, msg)
+	return nil
+}
+func (r *VerifReplier) getKnownUnconfirmed(txns []cipher.SHA256) (coin.Transactions, error) {
+	return r.Known, nil
+}
+func (r *VerifReplier) filterKnownUnconfirmed(txns []cipher.SHA256) ([]cipher.SHA256, error) {
+	return r.Unknown, nil
+}
+func (r *VerifReplier) getSignedBlocksSince(seq, count uint64) ([]coin.SignedBlock, error) {
+	return r.Blocks, nil
+}
+func (r *VerifReplier) recordPeerHeight(addr string, gnetID, height uint64) {}
+
+var _ daemoner = &VerifReplier{}
+
+// VerifHandlerReply runs the real handler of a request message against the replier and returns the (single) message it sent
+// back, nil if it sent none.  kind: GETT (→ GIVT), ANNT (→ GETT), GETB (→ GIVB).
+func VerifHandlerReply(r *VerifReplier, kind string) gnet.Message {
+	ctx := &gnet.MessageContext{Addr: "10.9.9.9:6000", ConnID: 7}
+	r.Sent = nil
+	switch kind {
+	case "GETT":
+		m := &GetTxnsMessage{Transactions: []cipher.SHA256{{1}}}
+		m.c = ctx
+		m.process(r)
+	case "ANNT":
+		m := &AnnounceTxnsMessage{Transactions: []cipher.SHA256{{1}}}
+		m.c = ctx
+		m.process(r)
+	case "GETB":
+		m := &GetBlocksMessage{LastBlock: 0, RequestedBlocks: 1000}
+		m.c = ctx
+		m.process(r)
+	}
+	if len(r.Sent) == 0 {
+		return nil
+	}
+	return r.Sent[len(r.Sent)-1]
+}
